@@ -83,7 +83,7 @@ def handle (args : List String) : String :=
     if op == "keyeddyn" || op == "indexeddyn" then
       -- item views that are a dynamic view at their top level: the region is a function of (list, toggle)
       let shape := fun (l : List SycVerif.ListMap.Item) (t : Nat) =>
-        ",".intercalate (["Tpre", "M"] ++ (l.map fun it => if t % 2 == 0 then s!"M,li{it.key},M" else s!"M,b{it.key},i{it.key},M") ++ ["M", "Tpost"])
+        ",".intercalate (["Tpre", "M"] ++ (l.map fun it => if t % 3 == 0 then s!"M,li{it.key},M" else if t % 3 == 1 then s!"M,b{it.key},i{it.key},M" else "M,M") ++ ["M", "Tpost"])
       let r := (evs.splitOn ";").foldl (fun (acc : List SycVerif.ListMap.Item × Nat × List String) e =>
         let (l, t, out) := acc
         let (l, t) := if e.startsWith "l" then (parseItems (e.drop 1).toString, t) else (l, ((e.drop 1).toString.toNat?).getD t)
